@@ -35,7 +35,7 @@ pub struct Config {
     /// count a switch to another worker at a task boundary (while the current worker could take
     /// the next item) as a deviation too, like a preemption.  Keeps the search space polynomial
     /// for calls with many small tasks; the bound then is a bound on deviations from "one worker
-    /// does everything".
+    /// does everything, in index order" (with `choose_items` a non-default item choice counts as well).
     pub count_task_switches: bool,
 }
 
@@ -386,7 +386,8 @@ fn worker_main(exec: &Exec, id: usize, body: &(dyn Fn(usize) + Sync)) {
         // take an item
         let k = if exec.cfg.choose_items && g.remaining.len() > 1 {
             let n = g.remaining.len();
-            exec.choose(&mut g, n, true, Kind::Item)
+            // with deviation counting, taking another item than the next one is a deviation too
+            exec.choose(&mut g, n, !exec.cfg.count_task_switches, Kind::Item)
         } else {
             0
         };
